@@ -36,6 +36,7 @@ type wcCase struct {
 	Mode   string   `json:"mode"`
 	Global bool     `json:"global"` // run mode set at Taskfile level instead of on the task
 	Inc    bool     `json:"inc"`    // W lives in an included Taskfile
+	Inc2   bool     `json:"inc2,omitempty"` // … which is included under TWO namespaces (run: once keys on file + local name: still one execution)
 	NV     int      `json:"nv"`
 	Cmd    []int    `json:"cmd"`
 	Env    []int    `json:"env"`
@@ -72,12 +73,26 @@ func wcRender(d wcCase) (string, string) {
 	if d.Inc {
 		ns = "inc:"
 	}
+	wName := "W"
+	if d.Inc2 {
+		// a local name whose first letter also occurs in one namespace but not in the other
+		wName = "cW"
+	}
+	nsOf := func(i int) string {
+		if d.Inc2 && i%2 == 1 {
+			return "xyz:"
+		}
+		return ns
+	}
 	root.WriteString("version: '3'\n")
 	if d.Global {
 		fmt.Fprintf(&root, "run: %s\n", d.Mode)
 	}
 	if d.Inc {
 		root.WriteString("includes:\n  inc: ./inc\n")
+		if d.Inc2 {
+			root.WriteString("  xyz: ./inc\n")
+		}
 	}
 	root.WriteString("tasks:\n  root:\n")
 	ref := func(b *strings.Builder, ind string, target string, binds [][2]int, through bool) {
@@ -106,9 +121,9 @@ func wcRender(d wcCase) (string, string) {
 	for i, c := range d.Calls {
 		switch c.Via {
 		case "dep":
-			ref(&deps, "      ", ns+"W", c.Binds, false)
+			ref(&deps, "      ", nsOf(i)+wName, c.Binds, false)
 		case "cmd":
-			ref(&cmds, "      ", ns+"W", c.Binds, false)
+			ref(&cmds, "      ", nsOf(i)+wName, c.Binds, false)
 		case "mdep":
 			refMid(&deps, "      ", i, c.Binds)
 		case "mcmd":
@@ -129,7 +144,7 @@ func wcRender(d wcCase) (string, string) {
 		} else {
 			root.WriteString("    cmds:\n")
 		}
-		ref(&root, "      ", ns+"W", c.Binds, true)
+		ref(&root, "      ", nsOf(i)+wName, c.Binds, true)
 	}
 	w := &root
 	if d.Inc {
@@ -140,7 +155,7 @@ func wcRender(d wcCase) (string, string) {
 		}
 		inc.WriteString("tasks:\n")
 	}
-	w.WriteString("  W:\n")
+	fmt.Fprintf(w, "  %s:\n", wName)
 	if !d.Global {
 		fmt.Fprintf(w, "    run: %s\n", d.Mode)
 	}
@@ -261,6 +276,7 @@ func genWc(c *Ctx) wcCase {
 	d.Mode = []string{"when_changed", "when_changed", "when_changed", "once", "always"}[r.Intn(5)]
 	d.Global = r.Intn(4) == 0
 	d.Inc = r.Intn(4) == 0
+	d.Inc2 = d.Inc && d.Mode == "once"
 	d.Cmd, d.Env, d.Sub, d.Dep = wcSubset(c, d.NV), wcSubset(c, d.NV), wcSubset(c, d.NV), wcSubset(c, d.NV)
 	k := 2 + r.Intn(5)
 	for i := 0; i < k; i++ {
